@@ -404,7 +404,8 @@ impl Alphabet {
         a.poss.retain(|p| *p != Some((1 << 32) + 1));
         if heavy {
             a.cigars.extend([CigarSel::Ops(65536), CigarSel::OpsStarSeq(65536)]);
-            a.auxvals.extend(big_aux_values(wide));
+            // (the wider set of big aux values is C05's: every C06 execution converts ~14 times)
+            a.auxvals.extend(big_aux_values(false));
             if wide {
                 a.cigars.extend([CigarSel::Ops(65535), CigarSel::OpsIns(65536)]);
             }
